@@ -14,7 +14,8 @@ RULE = ("cases = calls into the C engine observed by AddressSanitizer + Undefine
         "routine (distance, compact warping paths into a buffer of exactly dtw_settings_wps_length, expansion, all "
         "slices of small matrices, loc, best paths into index arrays of exactly len1+len2, affinity variants, max, "
         "negativize, bounds, six distance-matrix routines over all blocks for n<=3 (sampled above), DBA with unequal "
-        "lengths and masks across a byte boundary) with separately malloc'ed exact-size buffers, redzone 256. "
+        "lengths and masks across a byte boundary) with separately malloc'ed exact-size buffers, redzone 256; distance-matrix outputs are pre-filled with a sentinel "
+        "and every advertised entry must have been overwritten (the Cython wrapper passes uninitialised memory). "
         "(2) The ASan build of the extension modules loaded into the interpreter and driven by the C02, C04, C05, "
         "C06, C09, C12, C18 workloads (covers the Cython glue). (3) thorough: the native driver under valgrind "
         "memcheck. Any report whose stack contains a repository frame is a violation; reports are de-duplicated by "
@@ -65,6 +66,10 @@ def native(tier, seed, scratch):
                 cov["counters"]["native_calls:" + name] = cov["counters"].get("native_calls:" + name, 0) + int(cnt)
             if line.startswith("LENGTH-MISMATCH"):
                 viol.append(dict(prop="C08", kind="sanitizer:length-mismatch", fn="dtw_distances_*", report=line))
+            if line.startswith("UNWRITTEN"):
+                # dtw_cc.pyx hands array.resize()d (uninitialised) memory to these routines: an advertised entry that
+                # is not written is uninitialised memory returned to the Python caller
+                viol.append(dict(prop="C08", kind="sanitizer:advertised-output-entry-not-written", fn="dtw_distances_*", report=line))
         for rep in parse_sanitizer(se):
             cov["counters"]["native_sanitizer_reports"] = cov["counters"].get("native_sanitizer_reports", 0) + 1
             seen.setdefault((rep["kind"], rep["where"]), rep)
@@ -99,8 +104,13 @@ def native(tier, seed, scratch):
             if p.returncode == 9 or errs:
                 blk = se[:2500]
                 fm = re.search(r"(?:at|by) 0x[0-9A-F]+: (\w+) \((dd_\w+\.c):(\d+)\)", se)
-                where = "%s %s:%s" % fm.groups() if fm else "?"
-                viol.append(dict(prop="C08", kind="sanitizer:valgrind", fn=where, report=blk))
+                if fm:
+                    viol.append(dict(prop="C08", kind="sanitizer:valgrind", fn="%s %s:%s" % fm.groups(), report=blk))
+                else:
+                    # no repository frame in any report: a defect of the driver itself, not of the library
+                    # (the rule above); never a verdict on the library, but never silently "held" either
+                    inconc.append("valgrind shard %d: report(s) without a repository frame (driver defect?): %s"
+                                  % (sh, blk[:400]))
     return cov, viol, inconc
 
 
